@@ -35,8 +35,7 @@ def kms_encrypt_facts(ctx, impl):
     fi = ctx.repo.lookup_method(impl, "encrypt")
     ev = Evaluator(ctx.repo, inline_depth=1)
     outs = [o for o in ev.outcomes(fi) if o.kind == "return"]
-    if len(outs) != 1:
-        raise AnalysisError(f"{ctx.fq(fi)}: expected one normal outcome")
+    outs = generic.sole_outcome(ctx, outs, f"{ctx.fq(fi)}: expected one normal outcome")
     o = outs[0]
     aes = [s for e in all_effects(o.effects) for s in subterms(e) if isinstance(s, App) and s.op == "meth:encrypt"
            and isinstance(s.args[0], App) and "AESGCM" in s.args[0].op]
@@ -190,8 +189,7 @@ def run(ctx):
         generic.key_file_rule(ctx, "C06-D2c key file", impl, "encrypt")
     eag = repo.func(ENC, "Encryptor.encrypt_and_generate")
     eouts = [o for o in ev0.outcomes(eag) if o.kind == "return"]
-    if len(eouts) != 1:
-        raise AnalysisError(f"{ctx.fq(eag)}: expected one normal outcome")
+    eouts = generic.sole_outcome(ctx, eouts, f"{ctx.fq(eag)}: expected one normal outcome")
     ecalls = {}
     for e in all_effects(eouts[0].effects):
         if isinstance(e, App) and e.op == "eff:call" and isinstance(e.args[0], App) and e.args[0].op == "call" \
@@ -312,8 +310,7 @@ def cli_rules(ctx):
                                    ("generate_info", 3, ["encrypted_content", "tag", "encryption_info"])):
         fi = repo.func(CMD, fname)
         outs = [o for o in ev.outcomes(fi) if o.kind == "return"]
-        if len(outs) != 1:
-            raise AnalysisError(f"{ctx.fq(fi)}: expected one outcome")
+        outs = generic.sole_outcome(ctx, outs, f"{ctx.fq(fi)}: expected one outcome")
         writes = {}
         enc_call = None
         for e in all_effects(outs[0].effects):
@@ -381,8 +378,7 @@ def raw_form_rule(ctx):
     fi = repo.func("suit_generator.suit.security", "SuitEncryptionInfoExt.from_obj")
     ev = Evaluator(repo, inline_depth=0)
     outs = [o for o in ev.outcomes(fi) if o.kind == "return"]
-    if len(outs) != 1:
-        raise AnalysisError(f"{ctx.fq(fi)}: expected one normal outcome")
+    outs = generic.sole_outcome(ctx, outs, f"{ctx.fq(fi)}: expected one normal outcome")
     v = outs[0].value
     # super().from_cbor(super().deserialize_cbor(<bytes>))
     ok = False
